@@ -1440,6 +1440,19 @@ fn child_main(seed: u64, domain: Domain, lo: usize, hi: usize, file: &Path, n_se
                 Ok(map) => {
                     nobj = map.hit_objects.len();
                     mode = mode_name(crate::common::mode_idx(map.mode));
+                    // hypothesis of the sorted-map corollaries (Props/C05b.lean): decoded maps are sorted by start time
+                    let sorted = map.hit_objects.windows(2).all(|w| w[0].start_time <= w[1].start_time);
+                    let _ = writeln!(out, "U\t{idx}\t{}", u8::from(sorted));
+                    // model lines of this map (accepted or not): `M <idx> <request> <observed>`
+                    #[cfg(feature = "p05m")]
+                    if !checked_profile() {
+                        // thorough tier (n_settings = 2): every rejected map, every 4th accepted one (volume)
+                        for (req, obs) in crate::c05_models::susp_lines_of_map(&map) {
+                            if n_settings < 2 || obs != "ok" || idx % 4 == 0 {
+                                let _ = writeln!(out, "M\t{idx}\t{req}\t{obs}");
+                            }
+                        }
+                    }
                     let susp = rec.call("check_suspicion", || map.check_suspicion().is_ok());
                     stage = if susp != Some(true) {
                         "suspicious"
@@ -1458,6 +1471,16 @@ fn child_main(seed: u64, domain: Domain, lo: usize, hi: usize, file: &Path, n_se
                         } else {
                             let mut rng = case_rng(seed ^ 0x5EED, domain, idx);
                             let heavy = sl >= HEAVY_SLIDER_MS;
+                            // both stacking passes on the osu! objects of this map vs the Lean model
+                            #[cfg(feature = "p05m")]
+                            if !checked_profile() && !heavy && map.mode == GameMode::Osu && (n_settings < 2 || idx % 4 == 0) {
+                                let thr = [840.0, 0.0, 1.0e9, 150.0, 1260.0][idx % 5];
+                                if let Some(ls) = rec.call("osu-stacking-probe", || crate::c05_models::stk_lines_of_map(&map, thr)) {
+                                    for (req, obs) in ls {
+                                        let _ = writeln!(out, "M\t{idx}\t{req}\t{obs}");
+                                    }
+                                }
+                            }
                             exercise(&map, &mut rng, domain, &mut rec, n_settings, heavy, case.kind.ends_with("witness-sections").then_some(0.01));
                             if heavy {
                                 "exercised-light"
@@ -1824,6 +1847,21 @@ fn digest(run: &mut Run, seed: u64, domain: Domain, lines: &[String], label: &st
                 max_ms = max_ms.max(f[7].parse().unwrap_or(0));
                 max_call = max_call.max(f[8].parse().unwrap_or(0));
                 max_hwm = max_hwm.max(f[9].parse().unwrap_or(0));
+            }
+            Some("U") if f.len() >= 3 => {
+                run.count(&format!("{label}decoded map sorted by start time:{}", if f[2] == "1" { "yes" } else { "NO" }));
+            }
+            Some("M") if f.len() >= 4 => {
+                let idx: usize = f[1].parse().unwrap_or(0);
+                let tag = f[2].split(' ').next().unwrap_or("?");
+                run.count(&format!("{label}model:{tag} lines from searched maps"));
+                if tag == "SUSP" {
+                    run.count(&format!("{label}model:SUSP searched verdict:{}", f[3]));
+                }
+                if tag == "STK" && f[3].split(',').any(|h| h != "0" && h != "e") {
+                    run.count(&format!("{label}model:STK searched maps with non-zero heights"));
+                }
+                run.line(&format!("{label}{}:{idx}", domain.name()), f[2].to_owned(), f[3].to_owned());
             }
             Some("F") if f.len() >= 5 => {
                 let idx: usize = f[1].parse().unwrap_or(0);
